@@ -2048,7 +2048,10 @@ def post_canon(tree, modname):
 def normalize(tree, modname):
   """Returns (helpers_inlined, idioms_rewritten)."""
   if os.environ.get('GINSA_NO_NORMALIZE'):
-    return 0, 0
+    # debugging switch: structural rewrites off; the spelling idioms stay on because some rules are written against them
+    b = idioms(tree)
+    ast.fix_missing_locations(tree)
+    return 0, b
   a = unlift(tree, modname)
   cands = lifted_candidates(tree, modname)
   if cands:
